@@ -2,7 +2,7 @@
    Model.v = gix-mailmap (after fix 44459dddd), Spec.v = git 2.39 mailmap.c. *)
 From Coq Require Import Arith List.
 From GixV.Base Require Import Bytes BytesFacts Outcome.
-From GixV.C53 Require Import Model Spec ProofsSearch ProofsVec ProofsMap ProofsTop ProofsParse.
+From GixV.C53 Require Import Model Spec ProofsSearch ProofsVec ProofsMap ProofsTop ProofsParse ProofsFile.
 Import ListNotations.
 
 (* 1. core's binary_search_by (the Rust 1.95 loop) on any probe that is Less on [0,p), Equal on
@@ -152,9 +152,55 @@ Theorem parse_is_git_refuted_trailing_text :
     /\ g_read_line l = Some (Some (bs "Joe"), Some (bs "a@x"), None, None).
 Proof. exists (bs "Joe <a@x> trailing"). vm_compute. repeat split. Qed.
 
+(* 10. Whole files, read line by line: if every LF-terminated piece of the text is plain and outside
+       the parser-level classes ([line_ok]), git's map after reading all lines and git's map built
+       from the entries gix parsed answer every lookup alike (equal up to the spelling of keys and
+       up to entries that map nothing, which is all map_user can see: user_equiv). *)
+Theorem parse_file_is_git_except_known :
+  forall text, (forall c, In c (lines_wt text) -> line_ok c) ->
+    map_equiv (g_read_lines text) (git_map_of (parse_ignore_errors text)).
+Proof.
+  intros text H. exact (lines_equiv (lines_wt text) [] [] (map_equiv_refl []) H).
+Qed.
+Theorem map_user_respects_equiv :
+  forall m m' n e, map_equiv m m' -> g_map_user m n e = g_map_user m' n e.
+Proof. exact user_equiv. Qed.
+
+(* 11. The text-level statement except known: Snapshot::from_bytes(text).resolve(name, email) is
+       what `git check-mailmap` computes (Spec.g_check_mailmap), provided
+       - fgets' pieces are the lines (no line over 1022 bytes: class line-over-1022-bytes),
+       - every line is plain (classes nul-byte, unicode-whitespace) and carries none of
+         trailing-text, email-edge-whitespace, empty-second-email,
+       - the lookup keys are valid UTF-8 (the two non-utf8 classes), and
+       - no old email differs from the looked-up one in case only (class email-case-normalized). *)
+Theorem resolve_text_is_git_except_known :
+  forall text name email,
+    fgets_chunks text = lines_wt text ->
+    (forall c, In c (lines_wt text) -> line_ok c) ->
+    Forall en_ok (parse_ignore_errors text) ->
+    is_utf8 name = true -> is_utf8 email = true ->
+    email_case_exact (parse_ignore_errors text) email ->
+    exists s, from_bytes text = Ok s /\ resolve s name email = g_check_mailmap text name email.
+Proof. exact resolve_text. Qed.
+Example resolve_text_example :
+  let text := bs "Joe <a@x>" ++ [x0a] ++ bs " <n@x>  J <a@x> " ++ [x0d; x0a] ++ bs "# c" ++ [x0a] ++ bs "just a name" in
+  fgets_chunks text = lines_wt text
+  /\ (forall c, In c (lines_wt text) -> line_ok c)
+  /\ Forall en_ok (parse_ignore_errors text)
+  /\ email_case_exact (parse_ignore_errors text) (bs "a@x")
+  /\ g_check_mailmap text (bs "j") (bs "a@x") = (bs "j", bs "n@x").
+Proof.
+  cbv zeta. split; [vm_compute; reflexivity|]. split.
+  - intros c Hc. vm_compute in Hc.
+    destruct Hc as [<-|[<-|[<-|[<-|[]]]]]; split; vm_compute; reflexivity.
+  - split; [vm_compute; repeat constructor|]. split; [|vm_compute; reflexivity].
+    intros en Hen. vm_compute in Hen. destruct Hen as [<-|[<-|[]]]; intros _; reflexivity.
+Qed.
+
 (* The full statement of the property, at the level of the mailmap TEXT.  It is false (theorems 8
    and six further parser-level classes, see NOTES.md); what is proved is theorems 5-7 from the
-   parsed entries onwards and theorem 9 per line. *)
+   parsed entries onwards, theorem 9 per line, and theorem 11: this statement
+   under the explicit exclusion of the known classes. *)
 Definition resolve_full_statement : Prop :=
   forall text name email,
     exists s, from_bytes text = Ok s /\ resolve s name email = g_check_mailmap text name email.
